@@ -12,7 +12,7 @@ TRUSTED = [
 
 
 def _analyses():
-    from .analyses import a1_tables, a2_binding, a3_shape, a4_kind, a5_factor, a5_linear, a7_axis, a8_taint, kernel_trace as kt
+    from .analyses import a1_tables, a2_binding, a3_shape, a4_kind, a5_factor, a5_linear, a7_axis, a8_taint, kernel_core as kc, kernel_trace as kt
 
     return {
         "C01": ([a3_shape.vjp, a7_axis.hazards, a2_binding.catchall, a2_binding.variadic], "C01"),
@@ -22,6 +22,9 @@ def _analyses():
         "C14": ([a1_tables.nograd, a1_tables.sym, a1_tables.none_rules, a1_tables.methods], "C14"),
         "C07": ([a8_taint.traceable, a1_tables.helpers], "C07"),
         "C05": ([a3_shape.vjp, a3_shape.jvp], "C05"),
+        "C03": ([kc.backward_pass, kc.dispatch, kt.wrapper], "C03"),
+        "C10": ([kc.ownership, kc.purity, kc.inplace_sites, kc.closure_reuse, kc.backward_pass], "C10"),
+        "C17": ([kc.dispatch, kc.raise_discipline, kc.zero_paths], "C17"),
         "C08": ([kt.trace_fn, kt.wrapper, kt.notrace_wrapper, kt.find_top, kt.new_trace], "C08"),
         "C19": ([kt.global_effects, kt.trace_id_uses, kt.new_trace], "C19"),
         "C20": ([lambda c, w: kt.global_effects(c, w, thread=True)], "C20"),
